@@ -48,6 +48,9 @@ def plans(tier):
              letters=letters(("train",), ("ok",), ("AX", "XA", "N1", "N2"))),
         dict(fmt="npz", eps=2, depth=3,
              letters=letters(two, ("ok",), ("AX", "XA"))),
+        # values that are stored in another spelling than they are passed
+        dict(fmt="fb", eps=3, depth=4,
+             letters=letters(("train",), ("ok",), ("-", "T1", "T2"))),
     ]
 
 
